@@ -656,6 +656,55 @@ func init() {
 		panic(&abortSignal{kind: abortDone, msg: "os.Exit"})
 	}
 
+	// ------------------------------------------------------------ compress/gzip (abstract encoder)
+	// The DEFLATE stream is opaque: Close emits ONE token 1f 8b '[' data ']'
+	// carrying the buffered content; the harness-side decoder understands it.
+	type gzState struct {
+		w      Iface
+		data   Str
+		closed bool
+	}
+	intrinsics["compress/gzip.NewWriterLevel"] = func(e *Engine, fr *frame, fn *ssa.Function, args []Value) Value {
+		lvl := e.asInt(args[1])
+		bad := e.st.Or(e.st.Cmp(OpSLt, lvl, e.st.Const(64, ^uint64(1))), e.st.Cmp(OpSLt, e.st.Const(64, 9), lvl)) // level < -2 || level > 9
+		if e.branch(bad) {
+			return Tuple{(*Value)(nil), e.newErrorIface("<gzip: invalid compression level>")}
+		}
+		p := new(Value)
+		*p = e.zero(e.P.ByPath["compress/gzip"].Type("Writer").Type())
+		e.side[p] = &gzState{w: args[0].(Iface)}
+		return Tuple{p, Iface{}}
+	}
+	intrinsics["(*compress/gzip.Writer).Write"] = func(e *Engine, fr *frame, fn *ssa.Function, args []Value) Value {
+		st, ok := e.side[args[0].(*Value)].(*gzState)
+		if !ok {
+			panic(unsupported("gzip.Writer not created by NewWriterLevel"))
+		}
+		sl := args[1].(Slice)
+		bs := make([]*Term, len(sl.V))
+		for i, v := range sl.V {
+			bs[i] = v.(*Term)
+		}
+		if len(bs) > 0 {
+			st.data = e.strConcat(st.data, e.normStr(bs))
+		}
+		return Tuple{e.st.Const(64, uint64(len(bs))), Iface{}}
+	}
+	intrinsics["(*compress/gzip.Writer).Close"] = func(e *Engine, fr *frame, fn *ssa.Function, args []Value) Value {
+		st, ok := e.side[args[0].(*Value)].(*gzState)
+		if !ok {
+			panic(unsupported("gzip.Writer not created by NewWriterLevel"))
+		}
+		if st.closed {
+			return Iface{}
+		}
+		st.closed = true
+		tok := e.strConcat(e.strConcat(Str{S: "\x1f\x8b["}, st.data), Str{S: "]"})
+		e.ioWrite(fr, st.w, tok)
+		return Iface{}
+	}
+	intrinsics["(*compress/gzip.Writer).Flush"] = noop
+
 	// ------------------------------------------------------------ crypto/rand
 	intrinsics["crypto/rand.Read"] = func(e *Engine, fr *frame, fn *ssa.Function, args []Value) Value {
 		b := args[0].(Slice)
